@@ -17,8 +17,7 @@ RULE = ("One real responder with 1..4 registered services (shared/distinct host 
         "(-50..+1300 ms, 1 ms grid near the queue deadlines) relative to the last query. Non-trivial = at least one "
         "query was delivered to the responder within 1.5 s before the withdrawal and the goodbye sequence was observed.")
 ASSUMPTIONS = [
-    "unregister/close is issued after the registration's three announcements have completed (the property quantifies "
-    "over timings relative to queries, not relative to an unfinished registration)",
+    "unregister/close is issued after async_register_service returned (possibly while its announcements are still going out)",
     "the link, sockets and clock are simulated (see components_stub); asyncio scheduling is real",
 ]
 
@@ -34,8 +33,10 @@ def generate(rng, tier):
     ops = [{"t": 0.0, "op": "host", "h": "R", "ip": "10.0.0.1", "layout": layout},
            {"t": 0.0, "op": "peer", "p": "Q", "ip": "10.0.0.9", "ports": [5353, 5354]}]
     t = 0.05
+    t_regs = []
     for s in svcs:
         ops.append({"t": t, "op": "register", "h": "R", "svc": s})
+        t_regs.append(t)
         t += rng.choice([0.0, 0.01, 1.0])
     t_ready = t + 0.35 + 0.45 + 0.3
     base = t_ready + rng.choice([0.0, 0.2, 0.7, 2.0, 35.0, 1300.0])
@@ -58,6 +59,9 @@ def generate(rng, tier):
     else:
         delta = rng.random() * 0.15
     t_w = max(t_ready, last_q + delta)
+    if rng.random() < 0.15:
+        # withdrawal while the registration's own announcements (at +0.35, +0.575, +0.8 s) are still going out
+        t_w = t_regs[victim] + 0.35 + rng.choice([0.001, 0.05, 0.2, 0.224, 0.225, 0.226, 0.4, 0.449, 0.45, 0.451])
     if mode == "close":
         ops.append({"t": t_w, "op": "close", "h": "R"})
     else:
